@@ -448,7 +448,7 @@ def run_rpe(case, seq):
     from evo.core import metrics, filters
     from evo.core.units import Unit
     from evo.core.trajectory import PosePath3D
-    kw = dict(pose_relation=metrics.PoseRelation.translation_part, delta=case["delta"],
+    kw = dict(pose_relation=metrics.PoseRelation[case.get("rel", "translation_part")], delta=case["delta"],
               delta_unit=Unit[UNITS[case["unit"]]], all_pairs=case["all"], pairs_from_reference=bool(case.get("from_ref")))
     if not case.get("t_omitted"):
         kw["rel_delta_tol"] = case["t"]
@@ -477,6 +477,30 @@ def run_rpe(case, seq):
             m.process_data((a, b) if case.get("from_ref") else (b, a))
         except filters.FilterException:
             pass
+    if case.get("api"):
+        # the function route evo_rpe itself uses: main_rpe.rpe(ref, est, relation, delta, unit, tolerance, all_pairs,
+        # pairs_from_reference); timestamps = pose indices, so the result's "timestamps" array names the pair ends
+        from evo import main_rpe
+        from evo.core.trajectory import PoseTrajectory3D
+        n = len(seq)
+        stamps = np.arange(n, dtype=float)
+        sel = PoseTrajectory3D(poses_se3=seq, timestamps=stamps.copy())
+        other = PoseTrajectory3D(poses_se3=decoy_poses(case), timestamps=stamps.copy())
+        ref, est = (sel, other) if case.get("from_ref") else (other, sel)
+        args = [ref, est, kw["pose_relation"], kw["delta"], kw["delta_unit"]]
+        kwargs = dict(all_pairs=kw["all_pairs"], pairs_from_reference=kw["pairs_from_reference"])
+        if "rel_delta_tol" in kw:
+            kwargs["rel_delta_tol"] = kw["rel_delta_tol"]
+        import logging
+        logging.disable(logging.CRITICAL)
+        try:
+            res = main_rpe.rpe(*args, **kwargs)
+        finally:
+            logging.disable(logging.NOTSET)
+        ends = [float(t) for t in res.np_arrays["timestamps"]]
+        if any(t != int(t) for t in ends):
+            raise ValueError(f"result timestamps are not pose indices: {ends[:6]}")
+        return [int(t) for t in ends], int(len(res.np_arrays["error_array"]))
     sel, other = make_traj(case, case, seq), PosePath3D(poses_se3=decoy_poses(case))
     m.process_data((sel, other) if case.get("from_ref") else (other, sel))
     return list(m.delta_ids), int(len(m.error))
@@ -1081,6 +1105,11 @@ def rpe_cases(ctx, r, L, INC):
             allp = r.random() < 0.65
             t = r.choice(TOLS)
             c = {**base, "unit": u, "all": allp, "from_ref": r.random() < 0.5, "t": 0.1 if t is None else t}
+            # the pair selection must not depend on the pose relation being evaluated, nor on the route (class / rpe())
+            c["rel"] = r.choice(["translation_part", "translation_part", "rotation_part", "full_transformation",
+                                 "rotation_angle_rad", "rotation_angle_deg", "point_distance", "point_distance"])
+            if r.random() < 0.35:
+                c["api"] = True
             if t is None:
                 c["t_omitted"] = True
             if u == "m":
